@@ -34,6 +34,8 @@ pub enum Arm {
     TyStr,
     TyBool,
     Range(i64, i64),
+    /// interval with open ends: lo, hi, lo open, hi open
+    RangeOpen(i64, i64, bool, bool),
     Wild,
 }
 
@@ -85,6 +87,7 @@ fn arm_erg(a: &Arm, k: usize) -> String {
         Arm::TyStr => format!("(p{k}: Str)"),
         Arm::TyBool => format!("(p{k}: Bool)"),
         Arm::Range(a, b) => format!("(p{k}: {a}..{b})"),
+        Arm::RangeOpen(a, b, lo, hi) => format!("(p{k}: {a}{}..{}{b})", if *lo { "<" } else { "" }, if *hi { "<" } else { "" }),
         Arm::Wild => "_".into(),
     };
     format!("        {pat} -> \"arm{k}\"\n")
@@ -99,6 +102,7 @@ fn matches(a: &Arm, v: &Val) -> bool {
         (Arm::TyStr, Val::S(_)) => true,
         (Arm::TyBool, Val::B(_)) => true,
         (Arm::Range(a, b), Val::I(i)) => a <= i && i <= b,
+        (Arm::RangeOpen(a, b, lo, hi), Val::I(i)) => (if *lo { a < i } else { a <= i }) && (if *hi { i < b } else { i <= b }),
         _ => false,
     }
 }
@@ -125,6 +129,7 @@ fn arm_strategy(s: &Scrut) -> BoxedStrategy<Arm> {
         alts.push((2, Just(Arm::TyInt).boxed()));
         alts.push((2, Just(Arm::TyNat).boxed()));
         alts.push((3, (-3i64..6, 0i64..4).prop_map(|(a, w)| Arm::Range(a, a + w)).boxed()));
+        alts.push((2, (0i64..6, 1i64..5, any::<bool>(), any::<bool>()).prop_map(|(a, w, lo, hi)| Arm::RangeOpen(a, a + w, lo, hi)).boxed()));
     }
     if strs {
         alts.push((2, Just(Arm::TyStr).boxed()));
